@@ -15,10 +15,10 @@ CLAIMS = {
          "Bounds: nesting depth <= 1 per operand (values: depth 2), <= 1-2 fields/elements, field names from {a,b,c}.", "§5 C10"),
  "C03": ("For every input table/changelog within the bounds the real SimpleGroupBy and CustomTriggerGroupBy (end-of-stream trigger) nodes, run symbolically with the real aggregate prototypes, return one row per distinct key (NULL is a key) holding count/sum/min/max, the DISTINCT variants and avg over the group's non-NULL inputs (NULL for none), and agree with each other.",
          "Bounds: <= 3 rows (avg: 2), 0-2 key columns, Int|NULL cells; node level (parser/typechecker overload resolution outside).", "§5 C03"),
- "C05": ("For every table within the bounds and every n in 0..K including 0: nodes.Limit, OrderSensitiveTransform (with/without keys and limit) and the batch OutputPrinter return exactly min(n, rows) rows forming a sub-multiset of the input; with ORDER BY they are the first n of the sort order counting duplicates individually.",
-         "Bounds: <= 3 rows from a small value domain (duplicates arise), n <= 3, 0-2 keys; the output-mode dispatch in cmd/root.go is reproduced by the harness, not executed.", "§5 C05"),
- "C06": ("For every operator kind (Filter, Map, Distinct, OrderSensitiveTransform, Limit, Unnest, EventTimeBuffer, group-bys, StreamJoin/OuterJoin either side, LookupJoin either side, query expressions, output printers) placed over a source that fails after k records (k forked), and for failing expressions, Run/Evaluate returns a non-nil error.",
-         "Bounds: k <= 2 records before the failure; process exit status and malformed rows inside the real decoders are outside.", "§5 C06"),
+ "C05": ("For every table within the bounds and every n in 0..K including 0: nodes.Limit, OrderSensitiveTransform (with/without keys and limit) and the batch OutputPrinter return exactly min(n, rows) rows forming a sub-multiset of the input; with ORDER BY they are the first n of the sort order counting duplicates individually; a nested ORDER BY/LIMIT over a retracting (TRIGGER COUNTING 1) grouping returns what it returns over the batch grouping (whole pipeline: parser, planner, optimizer, Materialize, nodes).",
+         "Bounds: <= 3 rows from a small value domain (duplicates arise), n <= 3, 0-2 keys; 6 nested queries over <= 3-4 rows; the output-mode dispatch in cmd/root.go is reproduced by the harness, not executed.", "§5 C05"),
+ "C06": ("For every operator kind (Filter, Map, Distinct, OrderSensitiveTransform, Limit, Unnest, EventTimeBuffer, group-bys, StreamJoin/OuterJoin either side, LookupJoin either side, query expressions, output printers) placed over a source that fails after k records (k forked), for failing expressions, for a failing consumer above each operator, for a join input that fails while its 10 000-slot channel is exactly full, and for standard input that fails with a read error under the real lines/json/csv datasources, Run/Evaluate/Creator returns a non-nil error.",
+         "Bounds: k <= 2-3 records before the failure; stdin content <= 2-4 symbolic bytes (lines) or N in {0,2,101,130} well-formed rows (json/csv); process exit status and malformed rows inside the real decoders (C24) are outside.", "§5 C06"),
  "C14": ("For every aggregate prototype (count, sum, avg, min, max, array_agg and DISTINCT variants over Int/Float/Duration/Time) and every valid add/retract history within the bounds, the real aggregate reports what the same aggregate built fresh reports for the net multiset (plus an independent scalar reference).",
          "Bounds: histories of <= 3 (quick) / 5 (thorough) steps; Float sums only on an integer-valued table (|v| < 2^26).", "§5 C14"),
  "C15": ("For every valid input changelog within the bounds, each operator (Filter, Map, Distinct, Unnest, OrderSensitiveTransform, EventTimeBuffer, SimpleGroupBy, LookupJoin, StreamJoin/OuterJoin with retractions) emits a changelog that never retracts an absent row and whose consolidation equals the operator applied to the consolidated input.",
@@ -72,8 +72,8 @@ CLAIMS = {
          "Bounds: 2 (quick) / 3 (thorough) messages per input, keys over all Int values or NULL, event times 1..TCH s after the input's watermark.", "§5 C19"),
  "C08": ("For every function name and overload accepted by the real typechecker over a universe of argument types (each optionally nullable), and for And/Or/Coalesce/TypeCast/Tuple/field access, the value the real Materialize + Evaluate produce on arbitrary conforming symbolic arguments matches the static type the typechecker reported (independent `matches`).",
          "Bounds: argument types of depth <= 1 (TS=1 quick / 2 thorough), strings <= 2 bytes, containers <= 1-2 elements; like/~/~*/now/parse_time typechecked but not evaluated; aggregate output types and whole queries outside.", "§5 C08"),
- "C13": ("For every overload of the arithmetic operators on Int/Float/Duration/Time/String, abs/ceil/floor/sqrt (exact IEEE via the FP theory; log/pow plumbing only), int()/float()/string(), time_from_unix/time_to_unix, IN/NOT IN, list indexing and COALESCE, the real closures return what small definitional references state, for all 64-bit argument values within the bounds (failed parses -> NULL, time_to_unix(time_from_unix(x)) = x, COALESCE = first non-NULL).",
-         "Bounds: strings <= 3 bytes, lists <= 2-3 elements, time_from_unix(Float) for |x| < 4; inputs that raise query errors (division by zero, negative counts/indices) assumed away; parse_time, now, string() rendering outside.", "§5 C13"),
+ "C13": ("For every overload of the arithmetic operators on Int/Float/Duration/Time/String, abs/ceil/floor/sqrt (exact IEEE via the FP theory; log/pow plumbing only), int()/float()/string(), time_from_unix/time_to_unix, IN/NOT IN, list indexing and COALESCE, the real closures return what small definitional references state, for all 64-bit argument values within the bounds (failed parses -> NULL, time_to_unix(time_from_unix(x)) = x, COALESCE = first non-NULL, re-laid-out by field name for objects of different layout).",
+         "Bounds: strings <= 3 bytes, 7 object layouts for COALESCE, lists <= 2-3 elements, time_from_unix(Float) for |x| < 4; inputs that raise query errors (division by zero, negative counts/indices) assumed away; parse_time, now, string() rendering outside.", "§5 C13"),
  "C09": ("For every pair/triple of octosql values within the bounds (all 2^64 bit patterns per Int/Float/Duration leaf, every byte value per string byte, "
          "containers to the stated depth) the solver shows Compare is reflexive, antisymmetric, transitive, Equal agrees with it and compare-equal values "
          "hash equally (Value.Hash, the hash step used by containers and HashManyValues). Bounded model checking of the real functions; right level because the "
